@@ -1374,15 +1374,21 @@ def mk_value(rng, a, in_group_delims=None):
             if k in seen:
                 continue
             seen.add(k)
-            if rng.random() < 0.25:
-                kv, val = chs(k), [1]
+            r0 = rng.random()
+            if r0 < 0.2:
+                kv, val = chs(k), [1]                                   # a bare key: True
+            elif r0 < 0.4:
+                # `key=` with an empty value is the empty string, not True; blanks around = do not matter
+                kv, val = chs(k) + chs(rng.choice(['=', ' =', '= ', ' = '])), [4, []]
+            elif r0 < 0.5 and not in_group_delims:
+                kv, val = chs(k) + chs('={}'), [2, wtoks(chs('{}'))]       # an empty brace group as value
             elif rng.random() < 0.3 and not in_group_delims:
                 inner = text_tokens(rng) + chs(d) + text_tokens(rng)
                 v = chs('{') + inner + chs('}')
                 kv, val = chs(k) + chs('=') + v, [2, wtoks(v)]
             else:
                 w = text_tokens(rng)
-                kv, val = chs(k) + chs('=') + w, [4, S(''.join(chr(t[2]) for t in w))]
+                kv, val = chs(k) + chs(rng.choice(['=', '=', ' = ', '= '])) + w, [4, S(''.join(chr(t[2]) for t in w))]
             body += (chs(d) if body else []) + kv
             pairs.append([[4, S(k)], val])
         return body, [9, pairs]
@@ -1547,6 +1553,31 @@ def escape_call_case(rng):
                 tags=['absent-optional-then-escape', tag, 'spec:' + o + c], expect=dict(binds=binds, rest=rest))
 
 
+DICT_ENTRY_KINDS = [('bare', lambda k: (chs(k), [1])),
+                    ('empty', lambda k: (chs(k + '='), [4, []])),
+                    ('empty-blanks', lambda k: (chs(k + ' = '), [4, []])),
+                    ('valued', lambda k: (chs(k + '=v1'), [4, S('v1')])),
+                    ('empty-group', lambda k: (chs(k + '={}'), [2, [wire_tok(t) for t in chs('{}')]]))]
+
+
+def dict_shape_cases():
+    """every sequence of 1-3 dictionary entries over: bare key, key= (empty value), key = (with blanks), key=value, key={} --
+    in {..} and in [..], default and ; delimiter: a bare key is True, `key=` the empty string"""
+    for n in (1, 2, 3):
+        for kinds in itertools.product(range(len(DICT_ENTRY_KINDS)), repeat=n):
+            for spec, d in ((None, ','), ('[]', ','), (None, ';')):
+                body, pairs = [], []
+                for i, ki in enumerate(kinds):
+                    kv, val = DICT_ENTRY_KINDS[ki][1]('k' + 'abc'[i])
+                    body += (chs(d) if body else []) + kv
+                    pairs.append([[4, S('k' + 'abc'[i])], val])
+                a = dict(name='v', spec=spec, type='dict', delim=None if d == ',' else d, subtype=None, expanded=1)
+                o, c = (spec[0], spec[1]) if spec else ('{', '}')
+                yield dict(kind='arg', arg=a, toks=chs(o) + body + chs(c) + chs('x'), nt=True,
+                           tags=['dict-shape'] + sorted({'dict:' + DICT_ENTRY_KINDS[ki][0] for ki in kinds}),
+                           expect=dict(value=[9, pairs], rest=chs('x')))
+
+
 def repo_signatures():
     import core
     from translate import signatures
@@ -1687,6 +1718,8 @@ def streams(rng, tier, boost):
         c = dict(c, src=src, tags=list(c.get('tags', [])) + ['source-text'])
         out.append(('source', c))
         made += 1
+    for c in dict_shape_cases():
+        out.append(('dict-shapes', c))
     # 8. enable level: typed arguments from several start levels, incl. type any / Tok / XTok / Args at end of input
     for _ in range((400 if quick else 3000) * boost):
         ty = rng.choice(['any', 'any', 'Tok', 'XTok', 'Args', 'Number', 'Dimen', 'Glue', 'MuDimen', 'MuGlue', 'str', None, 'cs', 'int', 'list'])
